@@ -16,7 +16,7 @@ def run(pid, tier, seed, rundir, findings, t0, replay=None):
             sp = os.path.join(rundir, "src%d.scn.ndjson" % k)
             harness(["random", drv, str(seed * 131 + k), str(cnt * n), os.path.join(rundir, "src%d.trace.ndjson" % k), "25", sp])
             scn_files.append(sp)
-        for name, scns in [("c13rev", gen.c13rev(tier, seed)), ("c13flat", gen.c13flat(tier, seed)), ("closelim", gen.closelim(tier, seed)), ("poorwallet", gen.poorwallet(tier, seed)), ("noallow", gen.noallow(tier, seed)), ("liqfees", gen.samp(gen.liqfees(tier, seed), 60, seed)), ("c08", gen.c08(tier, seed)), ("c05", gen.c05(tier, seed)), ("c16", gen.c16(tier, seed)), ("c07", gen.c07(tier, seed)),
+        for name, scns in [("c13rev", gen.c13rev(tier, seed)), ("c13flat", gen.c13flat(tier, seed)), ("closelim", gen.closelim(tier, seed)), ("poorwallet", gen.poorwallet(tier, seed)), ("c13fund", gen.c13fund(tier, seed)), ("noallow", gen.noallow(tier, seed)), ("liqfees", gen.samp(gen.liqfees(tier, seed), 60, seed)), ("c08", gen.c08(tier, seed)), ("c05", gen.c05(tier, seed)), ("c16", gen.c16(tier, seed)), ("c07", gen.c07(tier, seed)),
                            ("pool", gen.pool(tier, seed, cap=250 if tier == "quick" else 3000, only_cw20=True))]:
             sp = os.path.join(rundir, name + ".scn.ndjson")
             with open(sp, "w") as f:
